@@ -233,6 +233,51 @@ func run(c Case) vt.Verdict {
 			return vt.Bad("%d problem(s) after reopen, first unexplained: %s (%d ops ok, %d rejected)", len(ps), p, ok, rejected)
 		}
 	}
+	// Link values and object identity are not visible through the public read API: the independent decoder
+	// checks that every soft/external link holds the written target, that all paths of a hard-linked object
+	// resolve to one header address, and that no group stores a name twice.
+	if data, err := os.ReadFile(file); err == nil {
+		res := hist.CompareIndep(ex.M, data)
+		if res.DecodeErr != "" {
+			// A hard-link request aimed at a soft/external link touches the link's pseudo object header (reference
+			// count message): consequence of KF-C03-01, recognised by the decoder's specific complaint.
+			aimedAtLink := false
+			for _, op := range c.Ops {
+				if op.K == "hard" {
+					if l := paths[op.Target]; l != nil && l.Kind != "hard" {
+						aimedAtLink = true
+					}
+				}
+				for _, dl := range op.Links {
+					if l := paths[dl[1]]; l != nil && l.Kind != "hard" {
+						aimedAtLink = true
+					}
+				}
+			}
+			if aimedAtLink && (strings.Contains(res.DecodeErr, "link/group info messages without a link info message") || strings.Contains(res.DecodeErr, "link pseudo-object")) {
+				return vt.KnownOr(kfLinkObj, "independent decoder: %s", res.DecodeErr)
+			}
+			return vt.Bad("independent decoder cannot decode the written file: %s", res.DecodeErr)
+		}
+		for _, e := range res.Extents {
+			return vt.Bad("structure placement: %s", e)
+		}
+		for _, p := range res.Problems {
+			if p.Kind == "indep-refcount" {
+				continue // reference counts are C05's concern (KF-C05-refcount)
+			}
+			if p.Kind == "indep-link-value" && underDense(p.Path) {
+				// a dense group's link to a soft/external link's pseudo object (KF-C03-01) is a hard link record
+				v := vt.KnownOr(kfLinkObj, "%s", p)
+				if v.Kind == vt.Violation {
+					return v
+				}
+				known = &v
+				continue
+			}
+			return vt.Bad("independent decoder disagrees with the tree that was built: %s", p)
+		}
+	}
 	if known != nil {
 		return *known
 	}
